@@ -31,7 +31,7 @@ func c03(c *Ctx) {
 	c03R7(c, "R7")
 	sState(c, "R8/S-STATE")
 	c10R5(c, "R9/C10.R5")
-	c05R1(c, "R10/C05.R1")
+	coreCommitBundle(c, "R10", "S-MATCH", "C05.R3")
 }
 
 // truncationTracks are the per-iteration tracks of appendEntries' entry loop.
